@@ -253,10 +253,6 @@ func (c *paramsScript) txDone(what string, err error) {
 	c.amounts(what)
 }
 
-func kycIgnore() map[string]interface{} {
-	return map[string]interface{}{"ignore": true, "approved": false, "id": ""}
-}
-
 func (c *paramsScript) depositI(m *coreMarket, who int, amount sdkmath.Int) {
 	tk := c.e.Ticket(0, map[string]interface{}{"kyc_data": kycIgnore()})
 	c.out.Op("HD %d 1 1 0 999999 %d %s 0", who, m.n, amount)
